@@ -54,3 +54,4 @@ run "64284f9 YAML block-scalar guard" C14 C05 -- 64284f9
 run "56ab4b7 symlink cycle" C08 -- 56ab4b7
 run "ed4068c structural deepClone" C01 C12 -- ed4068c
 run "9344719 flags rejects arguments" C14 -- 9344719
+run "a127cb7 list-form merge chains" C10 -- a127cb7
